@@ -117,3 +117,36 @@ Example C20_nonvacuous :
   run {| fl_csv := false; fl_keep := false; fl_skip := true |} [print_line false ex_r1; ex_bad; print_line false ex_r2]
     = {| cr_errors := [2]; cr_exit := 0; cr_output := Some [ex_r1; zero_word_freq false ex_r2] |}.
 Proof. vm_compute. repeat split; reflexivity. Qed.
+
+(* parse_line sees a line only through its trimmed fields and tokens: any source
+   style (quoted fields, runs of delimiters, a trailing comment) whose token
+   views are those of a well-formed record parses to that record *)
+Theorem C20_source_styles : forall d keep line r f0 f1 more tail,
+  srec_wf r = true ->
+  fields (N.eqb d) line = f0 :: f1 :: more ->
+  trim_q f0 = sr_phrase r -> trim_q f1 = dec_N (sr_freq r) ->
+  map trim_q (skipn 2 (fields (fun c => (c =? COMMA) || is_ws c) line)) = map spell (sr_syls r) ++ tail ->
+  comment_tail tail ->
+  parse_line d keep line = Some (zero_word_freq keep r).
+Proof. exact parse_line_by_tokens. Qed.
+Print Assumptions C20_source_styles.
+
+(* the four documented styles (the unit tests of init_database.rs) *)
+Definition ex_key : srec := {| sr_syls := [188; 8194]; sr_phrase := [38000; 21273]; sr_freq := 668 |}.
+Definition ex_ssv : list N := [38000; 21273; 32; 54; 54; 56; 32; 12583; 12576; 715; 32; 12564; 714; 32; 35; 32; 110; 111; 116; 32; 111; 102; 102; 105; 99; 105; 97; 108].
+Definition ex_ssv_spaces : list N := [38000; 21273; 32; 32; 32; 32; 32; 54; 54; 56; 32; 12583; 12576; 715; 32; 12564; 714; 32; 35; 32; 110; 111; 116; 32; 111; 102; 102; 105; 99; 105; 97; 108].
+Definition ex_csv : list N := [38000; 21273; 44; 54; 54; 56; 44; 12583; 12576; 715; 32; 12564; 714; 32; 35; 32; 110; 111; 116; 32; 111; 102; 102; 105; 99; 105; 97; 108].
+Definition ex_csv_quoted : list N := [34; 38000; 21273; 34; 44; 54; 54; 56; 44; 34; 12583; 12576; 715; 32; 12564; 714; 32; 35; 32; 110; 111; 116; 32; 111; 102; 102; 105; 99; 105; 97; 108; 34].
+Example C20_styles_nonvacuous :
+  srec_wf ex_key = true /\
+  parse_line 32 false ex_ssv = Some ex_key /\ parse_line 32 false ex_ssv_spaces = Some ex_key /\
+  parse_line 44 false ex_csv = Some ex_key /\ parse_line 44 false ex_csv_quoted = Some ex_key /\
+  (* the hypotheses of C20_source_styles hold for the quoted CSV line *)
+  (exists f0 f1 more tail,
+     fields (N.eqb 44) ex_csv_quoted = f0 :: f1 :: more /\ trim_q f0 = sr_phrase ex_key /\ trim_q f1 = dec_N 668 /\
+     map trim_q (skipn 2 (fields (fun c => (c =? COMMA) || is_ws c) ex_csv_quoted)) = map spell (sr_syls ex_key) ++ tail /\
+     tail = [[HASH]; [110; 111; 116]; [111; 102; 102; 105; 99; 105; 97; 108]]).
+Proof.
+  repeat split; try (vm_compute; reflexivity).
+  eexists _, _, _, _. vm_compute. repeat split; reflexivity.
+Qed.
